@@ -6,6 +6,8 @@ From CCT Require Import Prelude Hex Num Time Formats Json Auth Signing Keys.
 From CCT.Gen Require Pins.
 From CCT.Gen Require Params.
 From CCT.proofs Require Import HexFacts SigFacts AuthFacts SchemaFacts FamilyFacts SigningFacts KeyFacts.
+From CCT Require Ed25519.
+From CCT.proofs Require Ed25519Facts Ed25519Vectors.
 Open Scope N_scope.
 
 (* bytes <-> key object, for both classes *)
@@ -79,6 +81,45 @@ Example C19_witness :
   /\ key_is_equivalent_to KPub (VPub (repeat 1 32)) (VPriv (repeat 1 32)) = Ok false.
 Proof. vm_compute. repeat split. Qed.
 
+(* ---- the Gallina specification of RFC 8032 Ed25519 (theories/Ed25519.v: SHA-512, field and curve arithmetic, key derivation,
+   signing, verification, transcribed from section 6 of the RFC) *)
+(* for ALL seeds and messages: a public key is 32 bytes, a signature 64 -- the premises the signing theorems ask of the primitive *)
+Theorem C19_rfc8032_sizes : forall seed msg,
+  (length (Ed25519.public_key seed) = 32%nat /\ wf_bytes (Ed25519.public_key seed))
+  /\ (length (Ed25519.sign seed msg) = 64%nat /\ wf_bytes (Ed25519.sign seed msg)).
+Proof. intros. split; [apply Ed25519Facts.public_key_ok|apply Ed25519Facts.sign_ok]. Qed.
+
+(* its field arithmetic uses 2^255 = 19 (mod p) instead of a division: correct on canonical representatives *)
+Theorem C19_rfc8032_field_ops : forall a b, (0 <= a < Ed25519.fp)%Z -> (0 <= b < Ed25519.fp)%Z ->
+  Ed25519.fmul a b = (a * b mod Ed25519.fp)%Z /\ Ed25519.fadd a b = ((a + b) mod Ed25519.fp)%Z /\ Ed25519.fsub a b = ((a - b) mod Ed25519.fp)%Z.
+Proof. intros a b Ha Hb. split; [apply Ed25519Facts.fmul_spec; auto|]. split; [apply Ed25519Facts.fadd_spec; auto|apply Ed25519Facts.fsub_spec; auto]. Qed.
+
+(* its literal constants (d, sqrt(-1), the base point) satisfy their defining equations *)
+Theorem C19_rfc8032_constants :
+  Ed25519.cd = Ed25519.fmul (Ed25519.fp - 121665)%Z (Ed25519.inv_fp 121666)
+  /\ Ed25519.sqrt_m1 = Ed25519.pow_fp 2 ((Ed25519.fp - 1) / 4)%Z
+  /\ Ed25519.g_y = Ed25519.fmul 4 (Ed25519.inv_fp 5)
+  /\ Ed25519.recover_x Ed25519.g_y false = Some Ed25519.g_x
+  /\ Ed25519.base = (Ed25519.g_x, Ed25519.g_y, 1%Z, Ed25519.fmul Ed25519.g_x Ed25519.g_y).
+Proof. exact Ed25519Facts.constants_defined. Qed.
+
+(* the key-file and filing theorems above, instantiated with it: no premise about the primitive is left *)
+Theorem C19_keyfile_roundtrip_rfc8032 : forall seed files, length seed = 32%nat ->
+  write_keyfiles Ed25519.public_key (VPriv seed) = Ok files ->
+  load_keyfiles files = Ok (VPriv seed, VPub (Ed25519.public_key seed))
+  /\ public_key_of Ed25519.public_key (VPriv seed) = Ok (VPub (Ed25519.public_key seed)).
+Proof.
+  intros seed files L W. destruct (keyfile_roundtrip Ed25519.public_key Ed25519Facts.public_key_ok seed files L W) as (H1 & _ & H3). auto.
+Qed.
+
+Theorem C19_hex_filed_is_pub_rfc8032 : forall seed,
+  lower_hex_len 64 (hexlify (Ed25519.public_key seed)) /\ fromhex (hexlify (Ed25519.public_key seed)) = Some (Ed25519.public_key seed).
+Proof. intros seed. exact (C19_hex_filed_is_pub Ed25519.public_key Ed25519Facts.public_key_ok seed). Qed.
+
+(* the test vectors of RFC 8032 section 7.1 (TEST 1, 2, 3), and the NIST SHA-512 vector for "abc", evaluated by the kernel's VM *)
+Theorem C19_rfc8032_vectors : Ed25519Vectors.vectors_ok.
+Proof. exact Ed25519Vectors.vectors_hold. Qed.
+
 (* BEGIN SOURCE PINS -- written by harness/mkpins.py; the list is what Gen/Pins.v held for the tree the model was validated against *)
 (* the functions of the package this property depends on (call-graph closure of its entry points), each with the fingerprint of its
    logic (AST without docstrings, annotations, messages, local names): the model and the correspondence runs were validated against
@@ -127,3 +168,9 @@ Print Assumptions C19_lib_signs_pure_ed25519.
 Print Assumptions C19_hex_filed_is_pub.
 Print Assumptions C19_witness.
 Print Assumptions C19_source_pinned.
+Print Assumptions C19_rfc8032_sizes.
+Print Assumptions C19_rfc8032_field_ops.
+Print Assumptions C19_rfc8032_constants.
+Print Assumptions C19_keyfile_roundtrip_rfc8032.
+Print Assumptions C19_hex_filed_is_pub_rfc8032.
+Print Assumptions C19_rfc8032_vectors.
